@@ -20,7 +20,9 @@ from vf.ref import schema as RS
 
 DSTR = ["a", "é", "a b", "(", ")", "$", "X-", "\\27", "\\5c", "\\5C", "|", "x\\27y", "NAME", " ",
         # escapes next to text that looks like another escape once decoded, and escapes next to each other
-        "C:\\5c27th", "\\5C5c", "\\275c", "\\5c\\27", "\\27\\5C\\5c27", "5c", "27"]
+        "C:\\5c27th", "\\5C5c", "\\275c", "\\5c\\27", "\\27\\5C\\5c27", "5c", "27",
+        # inner runs of spaces, leading / trailing spaces, characters beyond the BMP, a tab and a line break inside the quotes
+        "Smith,  John", " a", "a ", "   ", "\U0001F600", "x\U00020000y\U0010FFFF", "a\tb", "a\n b"]
 CLS = {"oc": S.ObjectClassDescription, "at": S.AttributeTypeDescription, "dcr": S.DITContentRuleDescription}
 
 
